@@ -113,6 +113,9 @@ func (c *conditionLocker) waitIfLockAndAdd(wg *sync.WaitGroup) {
 type SecureChannel struct {
 	endpointURL string
 
+	// renewMu serializes the renewals of the security token
+	renewMu sync.Mutex
+
 	// c is the uacp connection
 	c *uacp.Conn
 
@@ -967,6 +970,16 @@ func (s *SecureChannel) scheduleRenewal(instance *channelInstance) {
 }
 
 func (s *SecureChannel) renew(instance *channelInstance) error {
+	// one renewal at a time
+	s.renewMu.Lock()
+	defer s.renewMu.Unlock()
+
+	// a token which has been replaced in the meantime is not renewed again:
+	// the new token continues the sequence numbers and has its own timer
+	if active, err := s.getActiveChannelInstance(); err != nil || active != instance {
+		return err
+	}
+
 	// lock ensure no one else renews this at the same time
 	s.reqLocker.lock()
 	defer s.reqLocker.unlock()
